@@ -251,11 +251,16 @@ def _exit_obligations(ex, ctx, fi, contract, e, deferred, ghost_env, rty, n_exit
         if d.kind == "modifies":
             f = Frame(None, dict(d.env), None, spec=True)
             e.frames = [f]
-            for a in d.node.args:
-                v = ex.ev(a, e)
-                if isinstance(v, VRef):
-                    c = ex.canon(e, v)
-                    mod_roots.append((c.root, c.path))
+            cur_heap = e.heap
+            e.heap = dict(e.old_heap)  # paths are resolved in the entry state
+            try:
+                for a in d.node.args:
+                    v = ex.ev(a, e)
+                    if isinstance(v, VRef):
+                        c = ex.canon(e, v)
+                        mod_roots.append((c.root, c.path))
+            finally:
+                e.heap = cur_heap
     for r, h0 in e.old_heap.items():
         h1 = e.heap.get(r)
         if h1 is h0:
